@@ -143,7 +143,7 @@ func ApplyPlant(rt *rapid.T, c *Case) *Plant {
 			pl.Via = "self"
 		case cd.q.Kind == "field":
 			pl.Via = "field"
-		case c.T(cd.x).Kind == KIface:
+		case cd.x != CtxType && c.T(cd.x).Kind == KIface:
 			pl.Via = "bind"
 		case cd.q.Kind == "prov" && len(cd.q.Prov.Results) > 1 && cd.q.Prov.Results[0] != cd.x:
 			pl.Via = "second-result"
@@ -191,7 +191,11 @@ func ApplyPlant(rt *rapid.T, c *Case) *Plant {
 	case "dup":
 		var types []TypeID
 		for _, u := range r.Needed {
-			types = append(types, suppliedBy(r, u)...)
+			for _, t := range suppliedBy(r, u) {
+				if t != CtxType {
+					types = append(types, t)
+				}
+			}
 		}
 		if len(types) == 0 {
 			return nil
